@@ -113,7 +113,7 @@ func TestVerifC02_NamespaceData(t *testing.T) {
 		// only families that apply to this honest answer are drawn (construction, not rejection)
 		fams := []string{"honest", "appendrow", "sibling", "bytes", "empty"}
 		if len(honest) > 0 {
-			fams = append(fams, "droprow", "duprow", "otherrow-entry", "otherns-entry")
+			fams = append(fams, "droprow", "duprow", "otherrow-entry", "otherns-entry", "noproof-entry")
 			if len(honest) > 1 {
 				fams = append(fams, "reorderrows")
 			}
@@ -269,6 +269,10 @@ func TestVerifC02_NamespaceData(t *testing.T) {
 				e.Shares = append(e.Shares, sq.Shares[rapid.IntRange(0, sq.ODS*sq.ODS-1).Draw(t, "attach")])
 			}
 			resp[i] = e
+		case "noproof-entry":
+			// one entry keeps its shares but loses its proof
+			i := rapid.IntRange(0, len(resp)-1).Draw(t, "rowi")
+			resp[i].Proof = nil
 		case "otherns-entry":
 			if len(resp) == 0 {
 				ok = false
